@@ -177,6 +177,12 @@ def check(col: Collector, tier: str):
     col.add("C05.R4", "query_ast_visitor", "handlers-keep-no-state-on-the-visitor", not bad,
             f"handlers assigning visitor attributes: {bad}")
 
+    from sa.props._tr import check_container_elements, import_obligations
+    check_container_elements(col, "C05.R8", m)
+    import_obligations(col, "C05.R8", "c17", lambda o: o.detail == "all-files-kept-in-order",
+                       "a file list that is de-duplicated or re-ordered makes one job differ from the same files split across jobs")
+    import_obligations(col, "C05.R8", "c16", lambda o: o.detail == "delivery-command-overwrites",
+                       "a run that keeps the previous run's output delivers another job's rows")
     # ------------------------------------------------------------ R5 templates
     check_templates(col)
     # ------------------------------------------------------------ R6 / R7
